@@ -178,6 +178,15 @@ fn check(c: &Case, obs: &mut Obs) -> Verdict {
         Some(h) => rows(&before_sm, |t| h.get_scope_for_token(t).map(str::to_string)),
         None => rows(&before_sm, |_| None),
     };
+    // "The default behavior is to just deduplicate the sourcemap" (doc of rewrite): the default options
+    // keep names and contents, strip nothing and read no files
+    {
+        let d = sourcemap::RewriteOptions::default();
+        ensure!(
+            d.with_names && d.with_source_contents && d.strip_prefixes.is_empty() && !d.load_local_source_contents && d.base_path.is_none(),
+            "RewriteOptions::default() is not 'keep names and contents, strip nothing, load nothing'"
+        );
+    }
     let old_sources: Vec<String> = before_sm.sources().map(str::to_string).collect();
     let prefixes = resolve_prefixes(&old_sources, &c.prefixes);
     let pf: Vec<&str> = prefixes.iter().map(|s| s.as_str()).collect();
